@@ -118,12 +118,19 @@ def screening_runs(rep, rng, dev, tier):
     from tdgl.solver.solver import TDGLSolver
     plans = [(1e-2, 0.1, 0.5), (1e-3, 0.5, 1.0), (1e-4, 0.5, 1.0), (1e-2, 0.02, 0.5), (3e-3, 1.0, 1.0), (1e-3, 0.5, 1.0, 1e-10)] if tier == "quick" else \
         [(1e-2, 0.1, 0.5), (1e-3, 0.5, 1.0), (1e-4, 0.5, 1.0), (3e-3, 1.0, 1.0), (1e-3, 0.1, 0.25), (1e-2, 1.0, 0.5)]
+    # feature pair: screening together with a seed solution that carries currents, the drive (field and bias) switched OFF: the
+    # only sources of the induced potential are then the currents inherited from the seed
+    plans.append((1e-3, 0.5, 1.0, 0.0, "seed"))
     worst_ratio = 0.0
     last_sol = None
+    strong_sol = None
     ind_bad = []
     for plan in plans:
         tol, alpha, beta = plan[:3]
         drive = plan[3] if len(plan) > 3 else 1.0      # overall strength of field and current (the loop's test is relative)
+        seeded = len(plan) > 4 and strong_sol is not None
+        if len(plan) > 4 and strong_sol is None:
+            continue
         it_log = []
         cur_iters = []
         bad = []
@@ -153,7 +160,8 @@ def screening_runs(rep, rng, dev, tier):
                                      include_screening=True, screening_tolerance=tol, screening_step_size=alpha,
                                      screening_step_drag=beta)
             solver = TDGLSolver(dev, opts, applied_vector_potential=0.8 * drive,
-                                terminal_currents={"source": 2.0 * drive, "drain": -2.0 * drive})
+                                terminal_currents={"source": 2.0 * drive, "drain": -2.0 * drive},
+                                seed_solution=strong_sol if seeded else None)
             orig_giv = solver.get_induced_vector_potential
 
             def giv(current_density, A_vals, velocity, tol=tol, alpha=alpha, beta=beta):
@@ -189,6 +197,8 @@ def screening_runs(rep, rng, dev, tier):
                 rep.count(1)
                 continue
             last_sol = sol
+            if drive == 1.0:
+                strong_sol = sol            # a solution with substantial currents (seed of the zero-drive run)
             # recorded iteration counts = number of kernel evaluations in each step
             rec = np.asarray(sol.dynamics.screening_iterations).astype(int).tolist()
             got = [len(e) for e in it_log][:len(rec)]
